@@ -9,8 +9,14 @@ import (
 	"runtime/debug"
 	"sort"
 	"strings"
+	"sync"
 	"time"
 )
+
+// current is the run being executed by this process (one at a time: the E2 runner shards cases
+// over single-threaded child processes). Decoders that have no receiver state (UnmarshalCBOR of a
+// zero-valued element) resolve handles through it.
+var current *Run
 
 // Status of an obligation.
 type Status string
@@ -279,6 +285,9 @@ func IsEnginePanic(x any) bool {
 
 // Run is one path execution of a harness.
 type Run struct {
+	// mu serialises the entry points used by library code: some library code (sigand) runs
+	// sub-protocols in goroutines that sample randomness and compare elements concurrently.
+	mu     sync.Mutex
 	eng    *Engine
 	q      *big.Int
 	field  *Field
@@ -317,12 +326,43 @@ type Run struct {
 	// algebrautils.RandomNonIdentity do not fork at every draw). Counted in DrawAssumptions.
 	genericDraws    bool
 	DrawAssumptions int
+
+	poisonKind, poisonMsg string
+}
+
+// poison records a control-flow abort requested while library code may be running on a goroutine
+// of its own (a panic there would kill the process): execution continues with an arbitrary branch
+// and the path is abandoned at the next harness-level call, on the harness goroutine.
+func (r *Run) poison(kind, msg string) {
+	if r.poisonKind == "" {
+		r.poisonKind, r.poisonMsg = kind, msg
+	}
+}
+
+func (r *Run) checkPoison() {
+	if r.poisonKind == "" {
+		return
+	}
+	k, m := r.poisonKind, r.poisonMsg
+	switch k {
+	case "abort":
+		panic(abortPath{m})
+	case "unsupported":
+		panic(unsupported{m})
+	default:
+		if r.out.Inconclusive == "" {
+			r.out.Inconclusive = m
+		}
+		panic(abortPath{"inconclusive: " + m})
+	}
 }
 
 // AssumeDrawsNonZero makes every subsequently sampled random element carry the assumption ≠ 0.
 func (r *Run) AssumeDrawsNonZero() { r.genericDraws = true }
 
 func (r *Run) drawVar(name string) *Poly {
+	r.mu.Lock()
+	defer r.mu.Unlock()
 	_, existed := r.vars[name]
 	p := r.newVar(name)
 	if r.genericDraws && !r.concrete && (!existed || !r.pathK[Not(pEqZ{p: p}).key()]) {
@@ -392,16 +432,23 @@ func (r *Run) concreteValue(name string) *big.Int {
 }
 
 // Scalar returns the named symbolic field element (an arbitrary element of GF(q)).
-func (r *Run) Scalar(name string) *F { return &F{f: r.field, p: r.newVar("in:" + name)} }
+func (r *Run) Scalar(name string) *F { return r.field.mk(r.newVarL("in:" + name)) }
 
 // Point returns the named symbolic group element (an arbitrary element of the group).
-func (r *Run) Point(name string) *G { return &G{g: r.group, p: r.newVar("in:" + name)} }
+func (r *Run) Point(name string) *G { return r.group.mk(r.newVarL("in:" + name)) }
+
+func (r *Run) newVarL(name string) *Poly {
+	r.mu.Lock()
+	defer r.mu.Unlock()
+	return r.newVar(name)
+}
 
 // ConstF returns a concrete field element.
 func (r *Run) ConstF(v *big.Int) *F { return &F{f: r.field, p: polyConst(v, r.q)} }
 
 // Assume adds a precondition to the path. If it is infeasible the path is abandoned silently.
 func (r *Run) Assume(p Pred) {
+	r.checkPoison()
 	switch p.(type) {
 	case pTrue:
 		return
@@ -529,7 +576,8 @@ func (r *Run) assertFact(p Pred) bool {
 	case pTrue:
 		return false
 	case pFalse:
-		panic(abortPath{"path condition contradictory"})
+		r.poison("abort", "path condition contradictory")
+		return false
 	case pAnd:
 		ch := false
 		for _, x := range v.xs {
@@ -794,6 +842,15 @@ func (r *Run) entailed(p Pred) Verdict {
 // Decisions (branches of the library on symbolic data)
 
 func (r *Run) decide(p Pred) bool {
+	r.mu.Lock()
+	defer r.mu.Unlock()
+	return r.decideL(p)
+}
+
+func (r *Run) decideL(p Pred) bool {
+	if r.poisonKind != "" {
+		return false
+	}
 	if !r.concrete {
 		p = r.norm(p)
 	}
@@ -832,18 +889,21 @@ func (r *Run) decide(p Pred) bool {
 	}
 	switch {
 	case canT == Unknown || canF == Unknown:
-		r.inconclusive("branch feasibility unknown: " + trunc(k, 100))
+		r.poison("inconclusive", "branch feasibility unknown: "+trunc(k, 100))
+		return false
 	case canT == Sat && canF == Unsat:
 		return true
 	case canT == Unsat && canF == Sat:
 		return false
 	case canT == Unsat && canF == Unsat:
-		panic(abortPath{"path infeasible"})
+		r.poison("abort", "path infeasible")
+		return false
 	}
 	// fork: continue with true, schedule false
 	r.depth++
 	if r.depth > r.eng.opt.MaxDepth {
-		r.inconclusive("fork depth bound exceeded")
+		r.poison("inconclusive", "fork depth bound exceeded")
+		return false
 	}
 	alt := append(append([]scriptLit{}, r.script...), r.localLits()...)
 	alt = append(alt, scriptLit{p, false})
@@ -898,6 +958,7 @@ func worse(o *Obligation, s Status, reason string, model map[string]string) {
 
 // Valid records the obligation "p holds for every assignment satisfying the path condition".
 func (r *Run) Valid(id string, p Pred) bool {
+	r.checkPoison()
 	o := r.ob(id, "valid")
 	o.Paths++
 	if r.concrete {
@@ -973,6 +1034,7 @@ func (r *Run) rawRecheck(o *Obligation, p0 Pred) bool {
 
 // Witness records the existential obligation "path ∧ p is satisfiable" (sat is required).
 func (r *Run) Witness(id string, p Pred) (bool, map[string]string) {
+	r.checkPoison()
 	o := r.ob(id, "witness")
 	o.Paths++
 	if r.concrete {
@@ -1009,6 +1071,7 @@ func (r *Run) Unsatisfiable(id string, p Pred) bool {
 // When it fails the current path condition is the set of inputs exhibiting the failure; a
 // witness of it is recorded as the counterexample.
 func (r *Run) Check(id string, cond bool, msg string) bool {
+	r.checkPoison()
 	o := r.ob(id, "concrete")
 	o.Paths++
 	if cond {
@@ -1028,6 +1091,7 @@ func (r *Run) Check(id string, cond bool, msg string) bool {
 
 // Reach marks a reachability witness (vacuity guard): the id must be reached on some path.
 func (r *Run) Reach(id string) {
+	r.checkPoison()
 	o := r.ob("reach:"+id, "reach")
 	o.Paths++
 	o.Status = StWitnessed
@@ -1124,5 +1188,7 @@ func (e *Engine) runOne(r *Run, h func(r *Run)) {
 			r.addPath(Not(sl.p))
 		}
 	}
+	current = r
 	h(r)
+	r.checkPoison()
 }
